@@ -79,6 +79,10 @@ func runSmall(c *core.Ctx) []core.Obligation {
 	smallDirectNamesShadowBoth(c, b)
 	smallMarshalerNilChecked(c, b)
 	smallStringOptionExact(c, b)
+	smallVarintDecodeTerms(c, b)
+	smallCompactSeqID(c, b)
+	smallEmptyMessagePresence(c, b)
+	smallParseRemainderSkipsSpaces(c, b)
 	smallStringOptionNull(c, b)
 	smallStringOptionMarshaler(c, b)
 	return b.out
@@ -99,7 +103,7 @@ func smallThriftReset(c *core.Ctx, b *ob) {
 		fn := c.Lookup(spec[0])
 		key := "thrift-reset:" + spec[0]
 		if fn == nil || pf == nil {
-			b.addP([]string{"C04"}, core.Undecided, key, "-", "Reset or protocolFlags not found")
+			b.addP([]string{"C04", "C13"}, core.Undecided, key, "-", "Reset or protocolFlags not found")
 			continue
 		}
 		good := false
@@ -135,13 +139,13 @@ func smallThriftReset(c *core.Ctx, b *ob) {
 			}
 		}
 		if good {
-			b.addP([]string{"C04"}, core.Discharged, key, c.InstrPos(at), "f = f.without(protocolFlags).with("+spec[1]+"(x)): the previous protocol's feature bits are dropped")
+			b.addP([]string{"C04", "C13"}, core.Discharged, key, c.InstrPos(at), "f = f.without(protocolFlags).with("+spec[1]+"(x)): the previous protocol's feature bits are dropped")
 		} else {
 			pos := c.FuncPos(fn)
 			if at != nil {
 				pos = c.InstrPos(at)
 			}
-			b.addP([]string{"C04"}, core.Violation, key, pos, fmt.Sprintf("%s does not recompute the protocol flags as f.without(protocolFlags).with(%s(x)): feature bits of the previous protocol (delta ids, bool coalescing) survive a Reset to another protocol", spec[0], spec[1]))
+			b.addP([]string{"C04", "C13"}, core.Violation, key, pos, fmt.Sprintf("%s does not recompute the protocol flags as f.without(protocolFlags).with(%s(x)): feature bits of the previous protocol (delta ids, bool coalescing) survive a Reset to another protocol", spec[0], spec[1]))
 		}
 	}
 }
@@ -3103,6 +3107,10 @@ func smallSkipCoalescedBool(c *core.Ctx, b *ob) {
 			ok = true
 		}
 	}
+	if ok && !mentionsBoolTypes(fn, trueV, falseV) {
+		b.addP(props, core.Violation, key, c.FuncPos(fn), "skipField recognises only one of the two boolean field types (BOOL is an alias of FALSE): under bool coalescing an undeclared field whose value is true (type TRUE) falls through to skip(), which swallows the first byte of the next field header — the rest of the struct is read out of phase")
+		return
+	}
 	if ok {
 		b.addP(props, core.Discharged, key, c.FuncPos(fn), "TRUE/FALSE fields are skipped without a read when the protocol coalesces booleans")
 	} else {
@@ -3285,4 +3293,331 @@ func smallStringOptionExact(c *core.Ctx, b *ob) {
 		return
 	}
 	b.addP(props, core.Discharged, key, c.FuncPos(fn), "the remainder after the literal must be empty, white space included")
+}
+
+// S54 — proto's varint decoder: the value is the sum of the payload bits of each byte, byte i
+// contributing (b[i] & 0x7f) << 7i. On every success return of decodeVarint the value is built
+// from input bytes only by conversion, masking with 0x7f, shifting left and or/add; a byte enters
+// unmasked only where a dominating test shows it below 0x80; a byte at constant index i is
+// shifted by 7i. Arithmetic tricks on the bytes (b[1]-1 to "cancel" the continuation bit of b[0])
+// wrap for padded encodings such as 80 00.
+func smallVarintDecodeTerms(c *core.Ctx, b *ob) {
+	props := []string{"C12", "C03", "C07"}
+	key := "varint-decoder:terms"
+	fn := c.Lookup("proto.decodeVarint")
+	if fn == nil {
+		b.addP(props, core.Undecided, key, "-", "proto.decodeVarint not found")
+		return
+	}
+	in := fn.Params[0]
+	n := 0
+	bad := ""
+	for _, r := range returnsOf(fn) {
+		if len(r.Results) != 3 || !isNilConst(r.Results[2]) {
+			continue
+		}
+		n++
+		seen := map[ssa.Value]bool{}
+		// term walks a byte-valued expression: returns (index if constant else -1, masked, the load)
+		var byteTerm func(v ssa.Value) (int64, bool, ssa.Value, bool)
+		byteTerm = func(v ssa.Value) (int64, bool, ssa.Value, bool) {
+			switch x := v.(type) {
+			case *ssa.Convert:
+				return byteTerm(x.X)
+			case *ssa.BinOp:
+				if x.Op == token.AND {
+					if k, ok := constInt(x.Y); ok && k == 0x7f {
+						i, _, ld, ok := byteTerm(x.X)
+						return i, true, ld, ok
+					}
+				}
+				return 0, false, nil, false
+			case *ssa.UnOp:
+				if x.Op == token.MUL {
+					if ia, ok := x.X.(*ssa.IndexAddr); ok && ia.X == ssa.Value(in) {
+						if k, isK := constInt(ia.Index); isK {
+							return k, false, x, true
+						}
+						return -1, false, x, true
+					}
+				}
+			}
+			return 0, false, nil, false
+		}
+		below80 := func(ld ssa.Value, blk *ssa.BasicBlock) bool {
+			same := func(v ssa.Value) bool {
+				if v == ld {
+					return true
+				}
+				a, ok1 := v.(*ssa.UnOp)
+				bb, ok2 := ld.(*ssa.UnOp)
+				if ok1 && ok2 && a.Op == token.MUL && bb.Op == token.MUL {
+					ia, ok3 := a.X.(*ssa.IndexAddr)
+					ib, ok4 := bb.X.(*ssa.IndexAddr)
+					if ok3 && ok4 && ia.X == ib.X {
+						ka, okA := constInt(ia.Index)
+						kb, okB := constInt(ib.Index)
+						return okA && okB && ka == kb
+					}
+				}
+				return false
+			}
+			check := func(cv ssa.Value, onTrue bool) bool {
+				bo, ok := cv.(*ssa.BinOp)
+				if !ok {
+					return false
+				}
+				k, isK := constInt(bo.Y)
+				if !isK || !same(bo.X) {
+					return false
+				}
+				return (bo.Op == token.LSS && k <= 0x80 && onTrue) || (bo.Op == token.GEQ && k <= 0x80 && !onTrue) || (bo.Op == token.LEQ && k < 0x80 && onTrue)
+			}
+			for _, e := range dominatingEdges(blk) {
+				if check(e.ifi.Cond, e.succ == 0) {
+					return true
+				}
+			}
+			for _, a := range trueAtoms(blk, 0) {
+				if check(a, true) {
+					return true
+				}
+			}
+			return false
+		}
+		var walk func(v ssa.Value, shift int64, shiftKnown bool) string
+		walk = func(v ssa.Value, shift int64, shiftKnown bool) string {
+			if seen[v] {
+				return ""
+			}
+			seen[v] = true
+			switch x := v.(type) {
+			case *ssa.Const:
+				return ""
+			case *ssa.Phi:
+				for _, e := range x.Edges {
+					if w := walk(e, shift, shiftKnown); w != "" {
+						return w
+					}
+				}
+				return ""
+			case *ssa.BinOp:
+				switch x.Op {
+				case token.OR, token.ADD:
+					if w := walk(x.X, shift, shiftKnown); w != "" {
+						return w
+					}
+					return walk(x.Y, shift, shiftKnown)
+				case token.SHL:
+					if k, ok := constInt(x.Y); ok {
+						return walk(x.X, shift+k, shiftKnown)
+					}
+					return walk(x.X, 0, false)
+				}
+			}
+			if i, masked, ld, ok := byteTerm(v); ok {
+				if !masked && !below80(ld, r.Block()) {
+					blkOK := false
+					if ins, isI := v.(ssa.Instruction); isI && below80(ld, ins.Block()) {
+						blkOK = true
+					}
+					if !blkOK {
+						return "an input byte enters the value with its continuation bit (no & 0x7f, no dominating test that it is below 0x80)"
+					}
+				}
+				if i >= 0 && shiftKnown && shift != 7*i {
+					return fmt.Sprintf("byte %d is shifted by %d, the varint format says %d", i, shift, 7*i)
+				}
+				return ""
+			}
+			if ins, ok := v.(ssa.Instruction); ok {
+				return "the value is computed with an operation that is not conversion, & 0x7f, <<, | or + of input bytes (" + c.InstrPos(ins) + ")"
+			}
+			return "the value does not come from the input bytes"
+		}
+		if w := walk(r.Results[0], 0, true); w != "" && bad == "" {
+			bad = c.InstrPos(r) + ": " + w
+		}
+	}
+	switch {
+	case n == 0:
+		b.addP(props, core.Undecided, key, c.FuncPos(fn), "decodeVarint has no success return")
+	case bad != "":
+		b.addP(props, core.Violation, key, c.FuncPos(fn), "proto.decodeVarint returns a value that is not the sum of (byte & 0x7f) << 7i over the bytes read — "+bad+": a varint padded with zero groups (80 00 for 0), which every protobuf decoder accepts, decodes to another number, a padded tag selects another field")
+	default:
+		b.addP(props, core.Discharged, key, c.FuncPos(fn), fmt.Sprintf("%d success return(s): each is the or/sum of masked (or tested) input bytes shifted by 7 per byte", n))
+	}
+}
+
+// S55 — compact message headers carry the sequence id as a 32-bit varint (var int32, not
+// zig-zag): the reference implementations write the 32 bits of the id as an unsigned number, five
+// bytes at most. Widening the signed id directly to 64 bits sign-extends it (-1 becomes a
+// ten-byte varint no peer reads), and a reader limited to MaxInt32 rejects the five-byte form.
+func smallCompactSeqID(c *core.Ctx, b *ob) {
+	props := []string{"C13"}
+	wkey, rkey := "compact:seqid:32-bit:writer", "compact:seqid:32-bit:reader"
+	if fn := c.Lookup("thrift.(*compactWriter).WriteMessage"); fn == nil {
+		b.addP(props, core.Undecided, wkey, "-", "thrift.(*compactWriter).WriteMessage not found")
+	} else {
+		found, bad := false, ""
+		for _, ci := range callsIn(fn) {
+			f := staticCallee(ci.Common())
+			if f == nil || f.Name() != "writeUvarint" || len(ci.Common().Args) < 2 {
+				continue
+			}
+			arg := ci.Common().Args[1]
+			if !dependsOn(arg, func(x ssa.Value) bool {
+				fld, ok := x.(*ssa.Field)
+				if ok {
+					st, _ := fld.X.Type().Underlying().(*types.Struct)
+					return st != nil && st.Field(fld.Field).Name() == "SeqID"
+				}
+				id, ok := fieldOfLoad(x)
+				return ok && strings.HasSuffix(id, ".SeqID")
+			}) {
+				continue
+			}
+			found = true
+			cv, ok := arg.(*ssa.Convert)
+			if !ok {
+				continue
+			}
+			if bt, ok := cv.X.Type().Underlying().(*types.Basic); ok && bt.Info()&types.IsUnsigned == 0 {
+				bad = c.InstrPos(ci)
+			}
+		}
+		switch {
+		case !found:
+			b.addP(props, core.Undecided, wkey, c.FuncPos(fn), "no writeUvarint of the sequence id found")
+		case bad != "":
+			b.addP(props, core.Violation, wkey, bad, "compactWriter.WriteMessage widens the signed sequence id straight to 64 bits: a negative id is sign-extended into a ten-byte varint (-1 is ff ff ff ff ff ff ff ff ff 01) where the specification has the 32 bits of the id as a varint of at most five bytes (ff ff ff ff 0f); conformant readers, and this package's own, reject it")
+		default:
+			b.addP(props, core.Discharged, wkey, c.FuncPos(fn), "the sequence id is written as the unsigned 32-bit value of its bits")
+		}
+	}
+	if fn := c.Lookup("thrift.(*compactReader).ReadMessage"); fn == nil {
+		b.addP(props, core.Undecided, rkey, "-", "thrift.(*compactReader).ReadMessage not found")
+	} else {
+		found, bad := false, ""
+		for _, ci := range callsIn(fn) {
+			f := staticCallee(ci.Common())
+			if f == nil || f.Name() != "readUvarint" || len(ci.Common().Args) < 3 {
+				continue
+			}
+			if k, ok := ci.Common().Args[1].(*ssa.Const); !ok || k.Value == nil || !strings.Contains(k.Value.ExactString(), "seq") {
+				continue
+			}
+			found = true
+			if m, ok := constUint(ci.Common().Args[2]); !ok || m < 0xffffffff {
+				bad = c.InstrPos(ci)
+			}
+		}
+		switch {
+		case !found:
+			b.addP(props, core.Undecided, rkey, c.FuncPos(fn), "no readUvarint of the sequence id found")
+		case bad != "":
+			b.addP(props, core.Violation, rkey, bad, "compactReader.ReadMessage rejects sequence ids above MaxInt32: the conformant encoding of a negative id (ff ff ff ff 0f for -1, the 32 bits of the id as an unsigned varint) is refused")
+		default:
+			b.addP(props, core.Discharged, rkey, c.FuncPos(fn), "every 32-bit sequence id is accepted")
+		}
+	}
+}
+
+// S56 — a non-nil pointer to a message is a present field even when the message has nothing to
+// write (&Sub{} with only nil pointers and empty slices, *struct{}): protobuf encodes it as the
+// tag and a zero length, and it decodes to a non-nil pointer. The struct encoder and the size
+// function decide whether a field is emitted; when that decision is the payload size alone
+// (size > 0), such a field vanishes and Unmarshal(Marshal(v)) has nil where v had a pointer.
+func smallEmptyMessagePresence(c *core.Ctx, b *ob) {
+	props := []string{"C03", "C12"}
+	for _, spec := range [][2]string{{"proto.structEncodeFuncOf$1", "encode"}, {"proto.structSizeFuncOf$1", "size"}} {
+		key := "proto:empty-message-presence:" + spec[1]
+		fn := c.Lookup(spec[0])
+		if fn == nil {
+			b.addP(props, core.Undecided, key, "-", spec[0]+" not found")
+			continue
+		}
+		// the block that accounts for / writes the tag of a unique field
+		var at *ssa.BasicBlock
+		for _, blk := range fn.Blocks {
+			for _, in := range blk.Instrs {
+				switch x := in.(type) {
+				case *ssa.Call:
+					if spec[1] == "encode" && calleeName(x.Common()) == "github.com/segmentio/encoding/proto.encodeTag" && at == nil {
+						at = blk
+					}
+				case *ssa.UnOp:
+					if id, ok := fieldOfLoad(x); ok && spec[1] == "size" && strings.HasSuffix(id, "structField.tagsize") && at == nil {
+						at = blk
+					}
+				}
+			}
+		}
+		if at == nil {
+			b.addP(props, core.Undecided, key, c.FuncPos(fn), "the emission of a field's tag was not found")
+			continue
+		}
+		sizeOnly := ""
+		for _, e := range dominatingEdges(at) {
+			bo, ok := e.ifi.Cond.(*ssa.BinOp)
+			if !ok {
+				continue
+			}
+			k, isK := constInt(bo.Y)
+			if !isK || k != 0 {
+				continue
+			}
+			if call, isCall := bo.X.(*ssa.Call); isCall && staticCallee(call.Common()) == nil && ((bo.Op == token.GTR && e.succ == 0) || (bo.Op == token.LEQ && e.succ == 1) || (bo.Op == token.NEQ && e.succ == 0) || (bo.Op == token.EQL && e.succ == 1)) {
+				sizeOnly = c.InstrPos(e.ifi)
+			}
+		}
+		if sizeOnly != "" {
+			b.addP(props, core.Violation, key, sizeOnly, fmt.Sprintf("%s emits a field only when its payload size is positive: a non-nil pointer to a message that has nothing to write (struct{S *Sub}{S: &Sub{}} where Sub holds only nil pointers and empty slices, or *struct{}) is dropped — the reference implementation writes the tag and a zero length (0a 00), and Unmarshal(Marshal(v)) gives S == nil", spec[0]))
+		} else {
+			b.addP(props, core.Discharged, key, c.PosOf(at.Instrs[0].Pos()), "the field is emitted on a path that does not require a positive payload size (presence of the pointer)")
+		}
+	}
+}
+
+// S57 — Parse returns what follows the first value *and its trailing white space*, whether the
+// value could be stored or not: Unmarshal decides between "trailing data" and the decode error on
+// that remainder, and callers resume from it. Every return of decoder.parse hands back the result
+// of skipSpaces.
+func smallParseRemainderSkipsSpaces(c *core.Ctx, b *ob) {
+	props := []string{"C11", "C02"}
+	key := "parse:remainder-spaces-skipped"
+	fn := c.Lookup("json.(decoder).parse")
+	if fn == nil {
+		b.addP(props, core.Undecided, key, "-", "json.(decoder).parse not found")
+		return
+	}
+	n, bad := 0, ""
+	for _, r := range returnsOf(fn) {
+		if len(r.Results) != 2 {
+			continue
+		}
+		n++
+		okAll := true
+		for _, o := range origins(r.Results[0]) {
+			call, ok := o.(*ssa.Call)
+			if !ok {
+				okAll = false
+				continue
+			}
+			if f := staticCallee(call.Common()); f == nil || !strings.HasPrefix(f.Name(), "skipSpaces") {
+				okAll = false
+			}
+		}
+		if !okAll {
+			bad = c.InstrPos(r)
+		}
+	}
+	switch {
+	case n == 0:
+		b.addP(props, core.Undecided, key, c.FuncPos(fn), "decoder.parse has no return")
+	case bad != "":
+		b.addP(props, core.Violation, key, bad, "decoder.parse returns a remainder that did not go through skipSpaces on this path: after a type error inside the value ({\"x\":300}\\n into struct{X uint8}) the remainder starts with the white space that follows it, Unmarshal reports a syntax error for that byte instead of the UnmarshalTypeError encoding/json gives, and Parse's callers resume before the white space")
+	default:
+		b.addP(props, core.Discharged, key, c.FuncPos(fn), fmt.Sprintf("%d return(s), each hands back skipSpaces(remainder)", n))
+	}
 }
